@@ -60,9 +60,9 @@ CHECKS.update({
    note="_partial for whole-run and for batches; Guarded fuzzy comparisons covered by correspondence only.",
    technique="Coq proof per micro-operation + differential correspondence + metamorphic oracle", ref="DESIGN.md §6 C07"),
  'C08': dict(
-   text="Coq theorems: a Meek/Warren/meek-prf distribution over strict ballots credits candidates + residual with exactly the ballots' multipliers (per ballot and over all ballots). kf ranges are false for the current code: reproduced inside Coq (kf = 1.2 at precision 1; open findings K1, K5). Exits, equal rankings, kf ranges elsewhere: values-scope correspondence + oracle.",
-   note="_partial; K1/K5 open findings.",
-   technique="Coq proof per micro-operation + refutation by evaluation + differential correspondence + oracle", ref="DESIGN.md §6 C08"),
+   text="Coq theorems: a Meek/Warren/meek-prf distribution over strict ballots credits candidates + residual with exactly the ballots' multipliers (per ballot and over all ballots). The keep-factor update of meek/warren never leaves an elected candidate above 1 (theorem for Fixed/integer/Guarded guard 0, after fix F12 a1b6d58 which the thorough tier's counter-examples prompted; the former witness is re-evaluated inside Coq); the lower bound kf > 0 fails under guarded arithmetic with guard>0 (open finding K1). Exits, equal rankings, meek-prf kf range, non-negativity: values-scope correspondence + oracle.",
+   note="_partial; K1 open finding.",
+   technique="Coq proof per micro-operation + differential correspondence + oracle", ref="DESIGN.md §6 C08"),
  'C09': dict(
    text="Whole-run Coq theorem (all rules, arithmetics, profiles, fuel): round numbers in the record never decrease and every recorded round lies between 0 and the current round (monotone-history preorder lifted by exec_steps); for every rule except QPQ (whose restart un-elects, as the property allows) statuses only move forward between ANY two snapshots of a count that ends normally, from the initial statuses to each snapshot and from each snapshot to the final statuses (hopeful -> elected[pending -> not pending] | defeated; withdrawn fixed). Seat bounds are FALSE for meek under guarded arithmetic with guard>0 (refuted Example inside Coq: 4 elected for 3 seats; open finding K13); seat bounds, QPQ transitions and crashed runs otherwise: states-scope correspondence + transition oracle on every pair of consecutive snapshots.",
    note="Seat-bound clause _partial (oracle + correspondence + machine-checked refutation for meek/guarded).",
